@@ -194,3 +194,17 @@ fn is_backface<V>(vs: &[Vertex<ScreenPt, V>]) -> bool {
     let u = vs[2].pos - vs[0].pos;
     v[0] * u[1] - v[1] * u[0] > 0.0
 }
+
+/// Verification hooks: thin public wrappers that let proof harnesses reach
+/// the private helpers of this module. Compiled only under `cargo kani`.
+#[cfg(kani)]
+pub mod verif_hooks {
+    use super::*;
+
+    pub fn is_backface<V>(vs: &[Vertex<ScreenPt, V>]) -> bool {
+        super::is_backface(vs)
+    }
+    pub fn depth_sort<A>(tris: &mut [Tri<ClipVert<A>>], d: DepthSort) {
+        super::depth_sort(tris, d)
+    }
+}
